@@ -479,3 +479,63 @@ Proof.
   unfold ha_marginal. destruct (HighestAverages.evaluate d tv n [] []) as [g' [t|]|]; try discriminate.
   intros [= ->]. reflexivity.
 Qed.
+
+(* ------------------------------------------------------------------ the index lists cover the support *)
+Lemma add_new_keeps l k x : In x l -> In x (add_new l k).
+Proof. unfold add_new. destruct (cmem k l); [auto|]. intros H. apply in_or_app. left. exact H. Qed.
+Lemma add_new_has l k : In k (add_new l k).
+Proof.
+  unfold add_new. destruct (cmem k l) eqn:E; [apply cmem_In, E|]. apply in_or_app. right. left. reflexivity.
+Qed.
+Lemma add_new_nodup l k : NoDup l -> NoDup (add_new l k).
+Proof.
+  intros H. unfold add_new. destruct (cmem k l) eqn:E; [exact H|].
+  assert (Hn : ~ In k l) by (intros Hi; apply cmem_In in Hi; congruence).
+  clear E. induction H as [|x l Hx Hl IH]; simpl.
+  - constructor; [tauto|constructor].
+  - constructor.
+    + intros Hi. apply in_app_or in Hi. destruct Hi as [Hi|[Hi|[]]]; [tauto|]. subst. apply Hn. left. reflexivity.
+    + apply IH. intros Hi. apply Hn. right. exact Hi.
+Qed.
+
+Definition row_fold (acc : list C) (row : list (C * Z)) : list C :=
+  fold_left (fun acc kv => add_new acc (fst kv)) row acc.
+Lemma row_fold_facts row : forall acc,
+  (forall x, In x acc -> In x (row_fold acc row)) /\
+  (forall kv, In kv row -> In (fst kv) (row_fold acc row)) /\
+  (NoDup acc -> NoDup (row_fold acc row)).
+Proof.
+  unfold row_fold. induction row as [|kv row IH]; intros acc; simpl.
+  - repeat split; auto. intros kv [].
+  - destruct (IH (add_new acc (fst kv))) as (K1 & K2 & K3). repeat split.
+    + intros x Hx. apply K1, add_new_keeps, Hx.
+    + intros kv' [<-|H]; [apply K1, add_new_has|apply K2, H].
+    + intros H. apply K3, add_new_nodup, H.
+Qed.
+
+Lemma parties_facts (votes : mat) : forall acc,
+  let out := fold_left (fun acc row => row_fold acc (snd row)) votes acc in
+  (forall x, In x acc -> In x out) /\
+  (forall row kv, In row votes -> In kv (snd row) -> In (fst kv) out) /\
+  (NoDup acc -> NoDup out).
+Proof.
+  induction votes as [|row votes IH]; intros acc; simpl.
+  - repeat split; auto. intros row kv [].
+  - destruct (IH (row_fold acc (snd row))) as (K1 & K2 & K3).
+    destruct (row_fold_facts (snd row) acc) as (R1 & R2 & R3). repeat split.
+    + intros x Hx. apply K1, R1, Hx.
+    + intros row' kv [<-|H] Hk; [apply K1, R2, Hk|apply (K2 row' kv H Hk)].
+    + intros H. apply K3, R3, H.
+Qed.
+
+Lemma parties_nodup votes : NoDup (parties votes).
+Proof. destruct (parties_facts votes []) as (_ & _ & K). apply K. constructor. Qed.
+
+(* every cell with votes lies inside districts x parties, so the sums of the statement are the full
+   district and party totals *)
+Lemma support_in_index votes i j : mget votes i j <> 0 -> In i (districts votes) /\ In j (parties votes).
+Proof.
+  intros H. destruct (mget_stored votes i j H) as (row & kv & Hr & Hi & Hk & Hj). split.
+  - unfold districts. rewrite <- Hi. apply in_map, Hr.
+  - rewrite <- Hj. destruct (parties_facts votes []) as (_ & K & _). apply (K row kv Hr Hk).
+Qed.
